@@ -234,6 +234,16 @@ def ilogOut (W x base : Nat) : String :=
 def log2bOut (b : Float32 × Float32) (num den : Nat) : String :=
   f32Hex b.1 ++ " " ++ f32Hex b.2 ++ enclosureMark b.1 b.2 num den
 
+def flog2bOut (isF64 : Bool) (bits : Nat) (r : Option (Float32 × Float32)) : String :=
+  match r with
+  | none => "panic Undocumented(log2-of-nan)"
+  | some b =>
+    match (if isF64 then ieeeDecode 52 11 bits else ieeeDecode 23 8 bits) with
+    | some (some (m, e)) =>
+      let (num, den) : Nat × Nat := if e ≥ 0 then (m * 2 ^ e.toNat, 1) else (m, 2 ^ (-e).toNat)
+      "ok " ++ log2bOut b num den
+    | _ => "ok " ++ f32Hex b.1 ++ " " ++ f32Hex b.2
+
 def dispatchC12 : Dispatch := fun W op args =>
   match op, args with
   | "u.gcd", [a, b] | "i.gcd", [a, b] | "ui.gcd", [a, b] | "iu.gcd", [a, b] => do
@@ -357,6 +367,14 @@ def dispatchC12 : Dispatch := fun W op args =>
       let b := log2BoundsPrimNoStd v
       f32Hex b.1 ++ ":" ++ f32Hex b.2 ++ enclosureMark b.1 b.2 v 1
     pure ("ok " ++ ",".intercalate ((List.range (hi - lo)).map fun i => item (lo + i)))
+  | "p.flog2b", [ty, b] => do
+    let b ← parseNat b
+    let is64 ← (match ty with | "f32" => some false | "f64" => some true | _ => none)
+    pure (flog2bOut is64 b (log2BoundsFloatPrimStd is64 b))
+  | "ns", _payload :: "p.flog2b" :: [ty, b] => do
+    let b ← parseNat b
+    let is64 ← (match ty with | "f32" => some false | "f64" => some true | _ => none)
+    pure (flog2bOut is64 b (log2BoundsFloatPrimNoStd is64 b))
   | "ns", _payload :: "u.log2b" :: [a] => do
     let a ← parseNat a
     pure ("ok " ++ log2bOut (log2BoundsNatNoStd W a) a 1)
